@@ -537,7 +537,11 @@ def _metric_value(width, nan_ok):
   vals = [0.0, 1.0, 2.0, 1.0, 2.0, 0.0, -0.0, 3.0, INF, -INF]
   if nan_ok:
     vals += [NAN, NAN]
-  return st.one_of(st.sampled_from(vals), st.sampled_from(vals), _cont(width))
+  # nearly equal but distinct values (also in float32): a tie is equality, not
+  # closeness
+  near = [1234567.0, 1234568.0, 100.0, 100.0005, 5e-9, 0.0, -5e-9]
+  return st.one_of(st.sampled_from(vals), st.sampled_from(vals), _cont(width),
+                   st.sampled_from(near))
 
 
 @st.composite
@@ -596,7 +600,10 @@ def service_strategy(draw):
   ndel = draw(st.sampled_from([0, 0, 1, 2]))
   deletes = draw(st.lists(st.integers(0, 11), min_size=ndel, max_size=ndel))
   return {'backend': draw(st.sampled_from(['ram', 'sqlmem'])),
-          'config': cfg, 'plans': plans, 'deletes': deletes}
+          'config': cfg, 'plans': plans, 'deletes': deletes,
+          # the same server earlier hosted - and deleted - a study of the same
+          # name whose metrics had the opposite goals
+          'predecessor': draw(st.sampled_from([False, False, True]))}
 
 
 def _service_expected(cfg, trials, TS):
@@ -644,6 +651,20 @@ def check_service(case):
       sn, sg, sth = cfg['safety']
       sc.metric_information.append(vz.MetricInformation(
           sn, goal=getattr(vz.ObjectiveMetricGoal, sg), safety_threshold=sth))
+    if case.get('predecessor'):
+      out.cls('predecessor_with_opposite_goals')
+      flip = {'MAXIMIZE': 'MINIMIZE', 'MINIMIZE': 'MAXIMIZE'}
+      old_sc = svc.std_config(algorithm='HARNESS', metrics=tuple(
+          (n, flip[g]) for n, g in cfg['objectives']))
+      old_st = svc.create_study(s, 'o', 's', config=old_sc)
+      for v_ in (1.0, 2.0):
+        t_ = svc.params_to_trial_proto(svc.det_params(90))
+        t_.state = TS.SUCCEEDED
+        for n_, _g in cfg['objectives']:
+          t_.final_measurement.metrics.add(metric_id=n_, value=v_)
+        s.CreateTrial(vsp.CreateTrialRequest(parent=old_st.name, trial=t_))
+      s.ListOptimalTrials(vsp.ListOptimalTrialsRequest(parent=old_st.name))
+      s.DeleteStudy(vsp.DeleteStudyRequest(name=old_st.name))
     st_ = svc.create_study(s, 'o', 's', config=sc)
     client = vizier_client.VizierClient(st_.name, 'w', s)
     study = clients.Study(client)
